@@ -32,6 +32,10 @@ pub open spec fn trunc_int(x: int) -> int { if x >= 0 { x / D() } else { -((-x) 
 pub open spec fn floor_int(x: int) -> int { if x >= 0 || (-x) % D() == 0 { trunc_int(x) } else { trunc_int(x) - 1 } }
 pub open spec fn ceil_int(x: int) -> int { if x <= 0 || x % D() == 0 { trunc_int(x) } else { trunc_int(x) + 1 } }
 pub uninterp spec fn eq_ignore_case(a: Seq<char>, b: Seq<char>) -> bool;
+/// rust_decimal `rescale`: rounds when the scale shrinks (uninterpreted)
+pub uninterp spec fn rescale_spec(q: int, scale: int) -> int;
+pub uninterp spec fn int_pow(a: int, b: int) -> int;
+pub uninterp spec fn dedup_seq<T>(s: Seq<T>) -> Seq<T>;
 pub uninterp spec fn str_replace<P>(s: Seq<char>, from: P, to: Seq<char>) -> Seq<char>;
 pub uninterp spec fn str_lower(s: Seq<char>) -> Seq<char>;
 pub uninterp spec fn str_upper(s: Seq<char>) -> Seq<char>;
@@ -103,6 +107,11 @@ pub broadcast proof fn axiom_pow10(k: int)
             k > 0 ==> pow10(k) == 10 * pow10(k - 1),
 {}
 
+#[verifier::external_body]
+pub broadcast proof fn axiom_int_pow10(k: int)
+    requires 0 <= k <= 19
+    ensures k <= 18 ==> #[trigger] int_pow(10, k) == pow10(k), k == 19 ==> int_pow(10, k) == 10 * pow10(18)
+{}
 // ---- proven lemmas of the decimal algebra
 pub broadcast proof fn lemma_dmul_of_int(a: int, n: int)
     ensures #[trigger] dmul(a, of_int(n)) == pmul(a, n)
